@@ -33,6 +33,7 @@ type ndOp struct {
 	Rank  int    `json:"rank,omitempty"`
 	Junk  string `json:"junk,omitempty"`
 	Kind  string `json:"kind,omitempty"`  // remoteput: "" (well-formed) miskeyed wrongvalue garbage nilrec nokey
+	Half  int    `json:"half,omitempty"`  // two-instance scenarios: which of the two DHT instances over the one datastore the operation goes to
 	Stamp string `json:"stamp,omitempty"` // remoteput: receive time carried by the sender's record: "" none | past | future | garbage
 }
 
@@ -45,7 +46,8 @@ type ndSc struct {
 	NKeys  int      `json:"n_keys"`
 	Actors [][]ndOp `json:"actors"`
 	Runs   []ndRun  `json:"runs"`
-	Plant  string   `json:"plant,omitempty"` // "", "expired", "corrupt", "miskeyed": initial datastore content of key 0
+	Plant  string   `json:"plant,omitempty"`         // "", "expired", "corrupt", "miskeyed": initial datastore content of key 0
+	Two    bool     `json:"two_instances,omitempty"` // two DHT instances share the value datastore (the WAN and LAN halves of a dual DHT given one datastore)
 }
 
 // gateValidator makes the validator calls of actor goroutines yield points.
@@ -78,7 +80,7 @@ func TestVerif_C05_Node(t *testing.T) {
 		Property: "C05", Part: "node",
 		Rule: "rapid: a real IpfsDHT (empty routing table) over a journaling value datastore; 2-4 actors each running 1-3 operations out of local PutValue, PUT_VALUE handler " +
 			"(well-formed / mis-keyed / value for another key / garbage / no record / no key; the sender's record carrying no, a past, a future or a garbage receive time), GET_VALUE handler, local read and GetValue on 1-2 keys, optional planted expired / corrupt / " +
-			"mis-keyed bytes; yield points = every datastore call and every Validate/Select call of an actor, schedule = drawn runs (actor, steps); oracle = per-key write log valid, correctly " +
+			"mis-keyed bytes; yield points = every datastore call and every Validate/Select call of an actor, schedule = drawn runs (actor, steps); in one case in three two DHT instances share the datastore (the two halves of a dual DHT given one datastore) and each operation goes to one of them; oracle = per-key write log valid, correctly " +
 			"keyed, stamped within the run and never downgraded under the validator's order, no live record deleted, rejected puts leave no trace, a local PutValue offered against a better live stored record is refused, " +
 			"an acknowledged put is readable by the same actor's later reads (not worse), no read returns the planted expired/corrupt/mis-keyed bytes or a never-stored value, final read = not " +
 			"worse than every acknowledged put; non-trivial = a decision point with >=2 actors inside operations on the same key, one of them a local PutValue",
@@ -104,6 +106,7 @@ func TestVerif_C05_Node(t *testing.T) {
 					default:
 						o.Op = "getvalue"
 					}
+					o.Half = rapid.IntRange(0, 1).Draw(t, "half")
 					if o.Op == "localput" || o.Op == "remoteput" {
 						o.Rank = rapid.IntRange(0, 3).Draw(t, "rank")
 						o.Junk = rapid.SampledFrom([]string{"", "x"}).Draw(t, "junk")
@@ -116,6 +119,7 @@ func TestVerif_C05_Node(t *testing.T) {
 				return ndRun{Who: rapid.IntRange(0, na-1).Draw(t, "who"), N: rapid.IntRange(1, 9).Draw(t, "n")}
 			}), 0, 24).Draw(t, "runs")
 			s.Plant = rapid.SampledFrom([]string{"", "", "", "expired", "corrupt", "miskeyed"}).Draw(t, "plant")
+			s.Two = verifsim.Chance(t, "twoInstances", 35)
 			return s
 		},
 		Run: func(t *testing.T, s ndSc) verifsim.Result { return runNode(t, s) },
@@ -135,6 +139,18 @@ func runNode(t *testing.T, s ndSc) (res verifsim.Result) {
 	}
 	defer env.close()
 	dhtn := env.d
+	nodes := []*IpfsDHT{env.d, env.d}
+	if s.Two {
+		lk2 := &lkSc{K: 2, Alpha: 1, Beta: 1, Self: 2}
+		env2, err := newSimEnv(lk2, nil, ValueDatastore(d), Validator(record.NamespacedValidator{"v": gateValidator{gate: sch.Gate}}),
+			MaxRecordAge(time.Hour), Mode(ModeServer))
+		if err != nil {
+			res.Fail("constructs", "C05/node/new", "%v", err)
+			return
+		}
+		defer env2.close()
+		nodes[1] = env2.d
+	}
 	from := peer.ID(ppool().IDs[7])
 
 	// where the node files a key: learned from the node itself with a probe key (then removed from the journal's view)
@@ -182,6 +198,7 @@ func runNode(t *testing.T, s ndSc) (res verifsim.Result) {
 				k := ndKey(op.Key % s.NKeys)
 				tag := strings.TrimPrefix(k, "/v/")
 				r := ndResult{key: k, op: op, jAt: d.JournalLen()}
+				dhtn := nodes[op.Half%2]
 				switch op.Op {
 				case "localput":
 					r.value = simValue(op.Rank, tag, op.Junk)
@@ -480,6 +497,9 @@ func runNode(t *testing.T, s ndSc) (res verifsim.Result) {
 	}
 	if s.Plant != "" {
 		res.Class("planted-" + s.Plant)
+	}
+	if s.Two {
+		res.Class("two-instances")
 	}
 	return
 }
